@@ -55,6 +55,12 @@ pub fn make_clean_image(seed: u64, hist: u64, max_bytes: usize) -> Option<CleanI
 /// `d7_free`: the history never re-appends at or below a removed log id (the pattern of C07's known finding D7),
 /// so that the image can be used under tiny cache limits without meeting it.
 pub fn make_clean_image_opt(seed: u64, hist: u64, max_bytes: usize, d7_free: bool) -> Option<CleanImage> {
+    make_clean_image_x(seed, hist, max_bytes, d7_free, 0)
+}
+
+/// `big_tail` > 0: the history ends with one more entry whose payload has that many bytes, so that the last record of
+/// the newest chunk spans several kilobytes (and 4 KiB boundaries).
+pub fn make_clean_image_x(seed: u64, hist: u64, max_bytes: usize, d7_free: bool, big_tail: usize) -> Option<CleanImage> {
     for attempt in 0..20u64 {
         let mut r = Rng::new(seed.wrapping_add(attempt.wrapping_mul(0x9e37)));
         let mut p = GenParams::default();
@@ -70,11 +76,31 @@ pub fn make_clean_image_opt(seed: u64, hist: u64, max_bytes: usize, d7_free: boo
         case.cfg.max_records = *r.pick(&[Some(3usize), Some(4), Some(6), Some(10), None]);
         case.cfg.max_size = *r.pick(&[None, None, Some(400)]);
         case.cfg.read_buf = Some(*r.pick(&[0usize, 1, 7, 64, 4096]));
+        if big_tail > 0 {
+            let mut m = Model::new();
+            for s in &case.steps {
+                if s.op.is_write() && matches!(s.expect, crate::genr::Expect::Accept) {
+                    let _ = Gen::apply_to_model(&mut m, &s.op);
+                }
+            }
+            let top = case.steps.iter().filter_map(|s| if let store::Op::Append(es) = &s.op { es.iter().map(|e| e.0.0).max() } else { None }).max().unwrap_or(1);
+            let id = match m.st.last {
+                Some(l) => (top.max(l.0) + 1, l.1 + 1),
+                None => (top + 1, m.st.purged.map(|p| p.1 + 1).unwrap_or(0)),
+            };
+            // inserted before the final sync
+            let pos = case.steps.len().saturating_sub(1);
+            let mut p = String::new();
+            while p.len() < big_tail {
+                p.push_str(&format!("[{}]", p.len()));
+            }
+            case.steps.insert(pos, crate::genr::Step { op: store::Op::Append(vec![(id, p)]), expect: crate::genr::Expect::Accept });
+        }
         // keep payloads short so that exhaustive byte sweeps stay affordable
         for s in case.steps.iter_mut() {
             if let store::Op::Append(es) = &mut s.op {
                 for e in es.iter_mut() {
-                    if e.1.len() > 40 {
+                    if e.1.len() > 40 && e.1.len() < 1000 {
                         e.1.truncate(40);
                     }
                 }
@@ -430,18 +456,35 @@ fn replacements(orig: u8, r: &mut Rng, all: bool) -> Vec<u8> {
 }
 
 pub fn c09_image(ci: &CleanImage, r: &mut Rng, all_values: bool, stats: &mut C09Stats, out_viols: &mut Vec<Viol>, deadline: f64) -> bool {
+    c09_image_x(ci, r, all_values, stats, out_viols, deadline, false)
+}
+
+/// `tail_only`: only the last two records of the newest chunk are swept, with one replacement value per byte (for
+/// images whose last record is several kilobytes long).
+pub fn c09_image_x(ci: &CleanImage, r: &mut Rng, all_values: bool, stats: &mut C09Stats, out_viols: &mut Vec<Viol>, deadline: f64, tail_only: bool) -> bool {
     let idir = ImageDir::new("c09");
     let mut complete = true;
     for (fidx, (cid, bytes)) in ci.img.iter().enumerate() {
         let parsed = refcodec::parse_file(bytes);
+        if tail_only && fidx + 1 != ci.img.len() {
+            continue;
+        }
         for (ri, (s, e, _)) in parsed.recs.iter().enumerate() {
+            if tail_only && ri + 2 < parsed.recs.len() {
+                continue;
+            }
             let fields = refcodec::decode_full(&bytes[*s..*e]).map(|d| d.fields).unwrap_or_default();
             for pos in *s..*e {
                 if util::now_s() > deadline {
                     return false;
                 }
                 let field = fields.iter().find(|(a, b, _)| pos - s >= *a && pos - s < *b).map(|f| f.2);
-                for val in replacements(bytes[pos], r, all_values) {
+                let mut vals = replacements(bytes[pos], r, all_values && !tail_only);
+                if tail_only {
+                    let k = r.below(vals.len() as u64) as usize;
+                    vals = vec![if r.chance(1, 2) { vals[k] } else { bytes[pos] ^ (1 << r.below(8)) }];
+                }
+                for val in vals {
                     let mut m = ci.img.clone();
                     m[fidx].1[pos] = val;
                     let class = format!("{}:{}:{}", field.map(|f| f.name()).unwrap_or("?"), if ri == 0 { "head_state" } else { "record" }, if fidx + 1 == ci.img.len() { "newest" } else { "older" });
@@ -453,7 +496,7 @@ pub fn c09_image(ci: &CleanImage, r: &mut Rng, all_values: bool, stats: &mut C09
                         }
                     }
                     // a sample of the mutations also with truncation disabled and through the Dump tool
-                    if all_values || r.chance(1, 6) {
+                    if (all_values && !tail_only) || r.chance(1, if tail_only { 40 } else { 6 }) {
                         let mut d2 = desc.clone();
                         d2["variant"] = json!("truncate_disabled");
                         if let Some(v) = c09_judge_no_truncate(ci, &idir, &m, field, d2, stats) {
@@ -476,7 +519,7 @@ pub fn c09_image(ci: &CleanImage, r: &mut Rng, all_values: bool, stats: &mut C09
         let _ = &mut complete;
     }
     // every middle chunk removed
-    if ci.img.len() >= 3 {
+    if ci.img.len() >= 3 && !tail_only {
         for k in 1..ci.img.len() - 1 {
             let mut m = ci.img.clone();
             let removed = m.remove(k);
@@ -772,6 +815,22 @@ pub fn run_shard(ctx: &mut Ctx) {
     let mut s09 = C09Stats::default();
     let mut s10 = C10Stats::default();
     let deadline = ctx.t0 + ctx.budget_s;
+    if !is09 {
+        // zero tails under a vote type whose decoder has its own validity check (and error kind)
+        let n = if ctx.tier == Tier::Quick { 3 } else { 200 };
+        for _ in 0..n {
+            if !ctx.time_left() {
+                break;
+            }
+            match crate::props::pvote::zero_tail_round(r.next()) {
+                Ok(k) => {
+                    ctx.out.count("zero_tail_images_under_a_vote_type_with_its_own_validity_check", k);
+                    ctx.out.evaluations += k;
+                }
+                Err(vi) => ctx.out.viol(vi),
+            }
+        }
+    }
     loop {
         if ctx.tier == Tier::Quick && h >= quick_images {
             break;
@@ -800,6 +859,19 @@ pub fn run_shard(ctx: &mut Ctx) {
         } else {
             c10_image(&ci, &mut r, &mut s10, &mut viols, deadline, ctx.tier == Tier::Thorough);
             ctx.out.evaluations += s10.opens - before10;
+        }
+        if is09 && h == 1 {
+            // one image per shard whose last record is 4-9 kB long (it crosses 4 KiB boundaries of the file): the last
+            // two records of the newest chunk are swept
+            let big = *r.pick(&[4200usize, 5000, 8300]);
+            if let Some(cb) = make_clean_image_x(r.next(), 800_000 + ctx.shard as u64 * 1_000_000, 20_000, false, big) {
+                let b = s09.opens;
+                c09_image_x(&cb, &mut r, false, &mut s09, &mut viols, deadline, true);
+                ctx.out.evaluations += s09.opens - b;
+                ctx.out.count("images_with_a_multi_kilobyte_last_record", 1);
+                ctx.out.count("opens_of_images_with_an_altered_multi_kilobyte_last_record", s09.opens - b);
+                ctx.out.distinct.insert(crate::shadow::image_hash(&cb.img));
+            }
         }
         if is09 {
             // the same journal with the purged chunk files still present (crash between the sync of the purge record
